@@ -7,13 +7,25 @@ SIMPLE_FORMS = ['assign', 'expr', 'print', 'emit', 'write', 'for', 'if', 'with',
 ASYNC_FORMS = ['await', 'awaitexpr', 'awaitprint', 'gather', 'asyncwith', 'asyncfor']
 NPTS = {'for': 2, 'if': 2, 'try': 2, 'tryexc': 2, 'semi': 2, 'semiemit': 2, 'multicall': 2, 'asyncwith': 3,
         'asyncfor': 2, 'comment': 0, 'directive': 0, 'defhelper': 0, 'defemit': 0, 'defclass': 0,
-        'asyncdef': 0, 'badcompile': 0, 'usename': 0}
+        'asyncdef': 0, 'badcompile': 0, 'usename': 0, 'useG': 0, 'useshadow': 0, 'delconst': 0, 'hasconst': 0,
+        'decodef2': 2}
 MULTILINE_FORMS = {'for', 'if', 'with', 'try', 'tryexc', 'multiline', 'multicall', 'tq', 'tqprint', 'defhelper',
-                   'defemit', 'asyncwith', 'asyncfor', 'asyncdef', 'defclass'}
-# forms whose first point may raise before the statement wrote anything and
-# without the doctest's own code handling it
+                   'defemit', 'asyncwith', 'asyncfor', 'asyncdef', 'defclass', 'decoclass', 'decoasync', 'decodef2'}
+# forms in which a point may raise without the doctest's own code handling it
 TB_FORMS = {'expr', 'print', 'emit', 'multiline', 'assign', 'callmod', 'callmod_expr', 'callhelper',
-            'callhelper_expr', 'for', 'with', 'semi', 'write', 'awaitexpr', 'await'}
+            'callhelper_expr', 'for', 'with', 'semi', 'write', 'awaitexpr', 'await', 'semiemit', 'try', 'if',
+            'multicall', 'emitop'}
+# forms whose points are reached one after the other: the raising point may be
+# a later one, so that the statement has already written to stdout (or bound a
+# name) when the expected exception arrives
+SEQ_FORMS = {'for', 'semi', 'semiemit', 'try', 'if', 'multicall'}
+# forms that rebind / shadow / delete / read names that also exist at module
+# level of the module under test, and decorated statements other than 'def'
+NAMESPACE_FORMS = ['rebindG', 'useG', 'shadow', 'useshadow', 'delconst', 'hasconst']
+DECORATED_FORMS = ['decoclass', 'decoasync', 'decodef2']
+HARMLESS_DIRS = [[['+', 'ELLIPSIS', None]], [['-', 'SKIP', None]], [['+', 'NORMALIZE_WHITESPACE', None]],
+                 [['-', 'IGNORE_WANT', None]], [['+', 'REQUIRES', 'linux']], [['-', 'REQUIRES', 'win32']],
+                 [['+', 'ELLIPSIS', None], ['-', 'SKIP', None]]]
 NOMINAL_EXCS = [
     {'exc': 'ValueError', 'msg': 'boom %s'},
     {'exc': 'ZeroDivisionError', 'msg': 'boom %s'},
@@ -38,6 +50,7 @@ def default_cfg(**kw):
         layouts=['google', 'google', 'freeform'], max_doctests_per_doc=2,
         n_modules=(1, 2), n_funcs=(1, 3), p_class=0.5, p_moddoc=0.3, p_subpkg=0.3,
         want_kinds=['acc', 'acc', 'last', 'repr'], p_say=0.0,
+        p_dir=0.0, p_inline_dir=0.0, p_raise_later=0.5,
     )
     c.update(kw)
     return c
@@ -49,10 +62,23 @@ def gen_steps(rng, cfg, pfx, modname):
     helpers = []
     window_nonempty = False
     chunk_start = True
+    deleted = False
+    chunk_semi = False      # a ';' line in the current chunk makes its final expression run in REPL mode
     for i in range(n):
         forms = list(cfg.forms)
         if helpers:
             forms += ['callhelper', 'callhelper_expr']
+        if deleted:
+            forms = [f for f in forms if f != 'delconst'] or ['assign']
+        if cfg.p_dir and rng.random() < cfg.p_dir:
+            # a block directive that changes nothing the statements depend on:
+            # it still cuts the doctest into parts at this line
+            steps.append({'i': i, 'form': 'directive', 'pts': [], 'ps2': False,
+                          'sep': rng.choice(['none', 'none', 'blank']) if i > 0 else 'none',
+                          'dirs': rng.choice(HARMLESS_DIRS)})
+            chunk_start = True
+            chunk_semi = False
+            continue
         if rng.random() < cfg.p_say:
             form = 'say'
         elif rng.random() < cfg.p_helper:
@@ -88,8 +114,18 @@ def gen_steps(rng, cfg, pfx, modname):
             st['delays'] = [rng.choice([0, 1, 2.5, 3600, 0.001]) for _ in range(k)]
         if form == 'modglobal':
             st['modname'] = modname
+        if form == 'delconst':
+            deleted = True
+        if cfg.p_inline_dir and form not in W.NOCODE_FORMS and form not in ('tq', 'tqprint') and rng.random() < cfg.p_inline_dir:
+            st['inline'] = rng.choice(HARMLESS_DIRS)
+            st['inline_at'] = rng.choice(['first', 'last'])
+            chunk_start = True      # an inline directive makes the statement a part of its own
         if st['sep'] != 'none':
             chunk_start = True
+        if chunk_start:
+            chunk_semi = False
+        if st.get('inline'):
+            chunk_semi = False
         # ---- want
         prints = bool(W.form_out(st))
         isexpr = W.is_expr(st)
@@ -107,6 +143,8 @@ def gen_steps(rng, cfg, pfx, modname):
                 if want == 'tbell' and not e['msg']:
                     want = 'tb'
                 st['exc'] = e
+                if form in SEQ_FORMS and rng.random() < cfg.p_raise_later:
+                    st['raise_at'] = 1
             elif r < cfg.p_tb + cfg.p_want:
                 cands = []
                 for wk in cfg.want_kinds:
@@ -116,6 +154,11 @@ def gen_steps(rng, cfg, pfx, modname):
                         cands.append(wk)
                     if wk == 'repr' and has_value:
                         cands.append(wk)
+                if prints and has_value and chunk_semi:
+                    # a statement that prints *and* has a value, run in REPL mode
+                    # (';' in its chunk): which text satisfies a want there is what
+                    # the documentation leaves open (DESIGN.md 5.3) -> no want
+                    cands = []
                 if cands:
                     want = rng.choice(cands)
         if want:
@@ -125,7 +168,9 @@ def gen_steps(rng, cfg, pfx, modname):
         else:
             if prints:
                 window_nonempty = True
-            chunk_start = False
+            chunk_start = bool(st.get('inline'))
+        if form in ('semi', 'semiemit') and not chunk_start:
+            chunk_semi = True
         steps.append(st)
     return steps
 
@@ -181,6 +226,47 @@ def gen_world(rng, cfg):
     return world
 
 
+def add_skips(rng, steps, unmet='env:SIM_NOT_SET'):
+    """switch parts of a doctest off with directives: everything, a tail, a
+    region, single statements.  Statements and wants stay as they are."""
+    base = max(st['i'] for st in steps) + 1
+
+    def block(sign, name='SKIP', arg=None):
+        nonlocal base
+        base += 1
+        return {'i': base, 'form': 'directive', 'pts': [], 'ps2': False, 'sep': 'none', 'dirs': [[sign, name, arg]]}
+    how = rng.choice(['all', 'all_requires', 'tail', 'region', 'inline', 'inline', 'head'])
+    n = len(steps)
+    if how == 'all':
+        steps.insert(0, block('+'))
+    elif how == 'all_requires':
+        steps.insert(0, block('+', 'REQUIRES', unmet))
+    elif how == 'tail':
+        steps.insert(rng.randint(1, n), block('+', rng.choice(['SKIP', 'SKIP', 'REQUIRES']), unmet))
+        if steps[-1]['form'] == 'directive' and steps[-1]['dirs'][0][1] == 'REQUIRES':
+            steps[-1]['dirs'][0][2] = unmet
+    elif how == 'region':
+        a = rng.randint(0, n)
+        b = rng.randint(a, n)
+        steps.insert(b, block('-'))
+        steps.insert(a, block('+'))
+    elif how == 'head':
+        steps.insert(rng.randint(0, n), block('-'))
+        steps.insert(0, block('+'))
+    else:
+        cands = [st for st in steps if st['form'] not in W.NOCODE_FORMS and st['form'] not in ('tq', 'tqprint') and not st.get('inline')]
+        for st in rng.sample(cands, min(len(cands), rng.randint(1, 2))):
+            st['inline'] = [['+', 'SKIP', None]]
+            st['inline_at'] = rng.choice(['first', 'last'])
+    for st in steps:
+        if st['form'] == 'directive':
+            if st['dirs'][0][1] != 'REQUIRES':
+                st['dirs'][0][2] = None
+    steps[0]['sep'] = 'none'
+    fix_chunk_starts(steps)
+    return how
+
+
 def all_points(world):
     """-> list of dicts {dtid, pid, step index, form, nsteps}"""
     out = []
@@ -189,7 +275,7 @@ def all_points(world):
         for st in dt['steps']:
             for j, p in enumerate(st.get('pts', [])):
                 out.append({'dtid': dtid, 'pid': p, 'i': st['i'], 'j': j, 'form': st['form'], 'nsteps': n,
-                            'want': st.get('want')})
+                            'want': st.get('want'), 'raise_at': st.get('raise_at', 0)})
     return out
 
 
@@ -198,13 +284,26 @@ def doctest_ids(world):
 
 
 def fix_chunk_starts(steps):
-    """after steps were inserted/removed: a traceback want may only sit on a
+    """after steps were inserted/removed/simplified: restore the layout rules of
+    gen_steps by a blank line where needed -- a traceback want may only sit on a
     statement that is a part of its own (an expression statement, or the first
-    statement of its chunk); restore that by a blank line where needed"""
+    statement of its chunk); a statement that prints *and* has a value carries a
+    want only if no ';' line shares its chunk"""
     prev = None
+    semi = False
     for st in steps:
+        if st['form'] == 'directive' or st.get('sep', 'none') != 'none' or (prev is not None and (prev.get('want') or prev.get('inline'))) \
+                or st.get('inline'):
+            semi = False
         w = st.get('want') or ''
         if w.startswith('tb') and not W.is_expr(st) and prev is not None:
-            if not prev.get('want') and st.get('sep', 'none') == 'none':
+            if not prev.get('want') and st.get('sep', 'none') == 'none' and prev['form'] != 'directive' and not prev.get('inline') \
+                    and not st.get('inline'):
                 st['sep'] = 'blank'
+                semi = False
+        if w and st['form'] == 'emitop' and semi:
+            st['sep'] = 'blank'
+            semi = False
+        if st['form'] in ('semi', 'semiemit'):
+            semi = True
         prev = st
